@@ -392,9 +392,11 @@ class CookieJar(AbstractCookieJar):
                     max_age_expiration = min(time.time() + delta_seconds, self.MAX_TIME)
                     self._expire_cookie(max_age_expiration, domain, path, name)
                 except ValueError:
+                    # RFC 6265 5.2.2: an invalid Max-Age is ignored,
+                    # an Expires attribute still applies
                     cookie["max-age"] = ""
 
-            elif expires := cookie["expires"]:
+            if not cookie["max-age"] and (expires := cookie["expires"]):
                 # 0 is a valid date: "Thu, 01 Jan 1970 00:00:00 GMT" deletes a cookie
                 if (expire_time := self._parse_date(expires)) is not None:
                     self._expire_cookie(expire_time, domain, path, name)
